@@ -169,10 +169,18 @@ pub fn oracle(c: &Case, st: &mut Stats) -> Result<(), String> {
         st.evals(1);
         let r = handles[hi].server.puncture(md);
         let first_time = !handles[hi].punctured.contains(&md);
-        if r.is_ok() != first_time {
-          return Err(format!("{ctx}: puncture of tag {md} returned ok={} but first time for this key history={first_time}", r.is_ok()));
+        let registered = model.registered[handles[hi].lineage].contains(&md);
+        if registered || r.is_ok() {
+          // a registered tag must be puncturable exactly once; an unregistered tag may be
+          // refused outright (the statement does not say either way), but if the server
+          // accepts it the second attempt must fail like any other
+          if r.is_ok() != first_time {
+            return Err(format!("{ctx}: puncture of tag {md} returned ok={} but first time for this key history={first_time}", r.is_ok()));
+          }
+          handles[hi].punctured.insert(md);
+        } else {
+          st.class("puncture-of-unregistered-tag-refused");
         }
-        handles[hi].punctured.insert(md);
         saw_puncture = true;
         // puncturing one tag never affects another: neighbours and all registered tags still answer
         let lin = handles[hi].lineage;
